@@ -213,6 +213,14 @@ def triGridBary (n : Nat) (l1 l3 : K) (topup : List (K × K)) : List (K × K) :=
   if mesh.length < n then mesh ++ (topup.take (n - mesh.length)).map (fun b => triMirror b.1 b.2)
   else mesh.take n
 
+/-- the candidates of `Triangle.sample_grid` before the first-n cut: the whole filtered mesh and the mirrored
+    top-up draws.  The returned grid (`triGridBary`) is a sub-list of it; WHICH n mesh nodes survive the cut
+    depends on the row order of the mesh, which the property does not care about. -/
+def triGridPoolBary (n : Nat) (l1 l3 : K) (topup : List (K × K)) : List (K × K) :=
+  let c := parGridCounts (2 * n) l1 l3
+  ((List.range (c.1 * c.2)).map (baryGrid c.1 c.2)).filter (fun b => le (b.1 + b.2) 1) ++
+    topup.map (fun b => triMirror b.1 b.2)
+
 /-- axis of `Sphere._point_grid_in_box`: `linspace(−r, r, m)[i]` -/
 def boxAxis (r : K) (m i : Nat) : K := -r + (two * r) * (natK i / natK (m - 1))
 
